@@ -254,50 +254,114 @@ theorem spline_reproduces_polyline (pts : List (ℝ × ℝ)) (c : LTerm) :
   rw [centred, interp1_shift, sub_add_cancel]
   exact interp1_at_vertex pts ha hl p hp
 
-/-- the boundary stripping read from the source removes the horizontal face runs at both ends ONLY: what is left is a
-    contiguous part of the given polyline and contains every vertex that is off the face line -/
-theorem spline_strip_keeps_interior (pts : List (ℝ × ℝ)) (hacc : splineAccepts pts = true) :
-    (∃ s t, pts = s ++ strip spline_strip pts ++ t)
-      ∧ ∀ p ∈ pts, isclose p.2 (PyNum.nat 0 : ℝ) = false → p ∈ strip spline_strip pts :=
-  stripFaceRuns_spec pts hacc
+/-! ### the face test and the boundary stripping
 
-example : splineAccepts twinV = true := by
-  simp [splineAccepts, twinV, col, isclose_zero_zero]
+`spline_face` is the face test the translator read out of `SplineGroove.__init__` (ONE test for the validation of the end
+ordinates and for the stripping): `np.isclose(y, 0)`, or `np.abs(y) <= <tolerance term>` with the tolerance term evaluated
+on the polyline AS GIVEN (`1e-9 * np.max(np.ptp(contour_points, axis=0))`: relative to the extent of the contour).  The
+theorems below are about whichever test was read; `spline_face_bounded` is the only place that looks at its form. -/
+
+/-- the face predicate of the polyline `pts`: `y ↦ "the ordinate y lies on the face line"` -/
+noncomputable def onFace (pts : List (ℝ × ℝ)) : ℝ → Bool := spline_face.onFace pts
+
+/-- the polyline without its face runs, as the generated model computes it -/
+noncomputable def stripped (pts : List (ℝ × ℝ)) : List (ℝ × ℝ) := strip spline_strip (onFace pts) pts
+
+theorem splinePoints_eq (pts : List (ℝ × ℝ)) :
+    splinePoints spline_strip spline_face spline_centre pts = centred spline_centre (stripped pts) := rfl
+
+/-- **what the face test read from the source says**: an ordinate lies on the face line iff its absolute value is at most
+    the tolerance `spline_face.tol pts` - the translated tolerance term evaluated on the polyline as given -/
+theorem spline_face_spec (pts : List (ℝ × ℝ)) (y : ℝ) : onFace pts y = true ↔ |y| ≤ spline_face.tol pts :=
+  onFace_iff spline_face pts y
+
+/-- the tolerance read from the source is non-negative and at most `max 1e-8 (1e-9 · extent of the polyline)` (the absolute
+    default of `np.isclose`, or one billionth of the larger extent): a tolerance beyond that - which would take vertices of
+    the groove shape for face vertices - does not build -/
+theorem spline_face_bounded : FaceBounded spline_face := by
+  first
+    | exact faceBounded_isclose
+    | exact faceBounded_within_extent
+
+/-- an ordinate that IS 0 lies on the face line, whatever the polyline -/
+theorem spline_zero_on_face (pts : List (ℝ × ℝ)) (h : pts ≠ []) : onFace pts 0 = true :=
+  faceBounded_zero spline_face_bounded h
+
+/-- a polyline that starts and ends exactly on the face line is accepted -/
+theorem spline_accepts_zero_ends (pts : List (ℝ × ℝ)) (h : pts ≠ []) (h0 : (col 1 pts).headD nan = 0)
+    (h1 : (col 1 pts).getLastD nan = 0) : splineAccepts (onFace pts) pts = true := by
+  simp only [splineAccepts, h0, h1, spline_zero_on_face pts h, Bool.and_self]
+
+/-- the boundary stripping read from the source removes the horizontal face runs at both ends ONLY: what is left is a
+    contiguous part of the given polyline and contains every vertex that the face test read from the source puts off the
+    face line (`|y| > spline_face.tol pts`) -/
+theorem spline_strip_keeps_interior (pts : List (ℝ × ℝ)) (hacc : splineAccepts (onFace pts) pts = true) :
+    (∃ s t, pts = s ++ stripped pts ++ t)
+      ∧ (∀ p ∈ pts, onFace pts p.2 = false → p ∈ stripped pts)
+      ∧ (∀ p ∈ pts, spline_face.tol pts < |p.2| → p ∈ stripped pts) := by
+  have h := stripFaceRuns_spec (onFace pts) pts hacc
+  refine ⟨h.1, h.2, fun p hp hy => h.2 p hp ?_⟩
+  rw [Bool.eq_false_iff, Ne, spline_face_spec, not_le]; exact hy
+
+example : splineAccepts (onFace twinV) twinV = true :=
+  spline_accepts_zero_ends twinV (by simp [twinV]) (by simp [twinV, col]) (by simp [twinV, col])
+
+example : onFace twinV 1 = false :=
+  faceBounded_off spline_face_bounded (by simp [twinV]) 4 twinV_bound (by norm_num) 1 (by norm_num)
 
 /-- why the kind of stripping matters: the mask "both neighbours on the face line" (what the code did before the repair)
-    silently removes the tips of two V-shaped grooves side by side -/
+    silently removes the tips of two V-shaped grooves side by side - with the face test read from the source -/
 theorem both_neighbours_strip_drops_interior :
-    ¬ ∀ pts : List (ℝ × ℝ), splineAccepts pts = true →
-      ∀ p ∈ pts, isclose p.2 (PyNum.nat 0 : ℝ) = false → p ∈ strip .bothNeighbours pts := by
+    ¬ ∀ pts : List (ℝ × ℝ), splineAccepts (onFace pts) pts = true →
+      ∀ p ∈ pts, onFace pts p.2 = false → p ∈ strip .bothNeighbours (onFace pts) pts := by
   intro h
-  have := h twinV (by simp [splineAccepts, twinV, col, isclose_zero_zero]) (1, 1) (by simp [twinV])
-    (by simpa using isclose_pos 1 (by norm_num))
-  rw [stripBoth_twinV] at this
+  have h0 : onFace twinV 0 = true := spline_zero_on_face twinV (by simp [twinV])
+  have h1 : onFace twinV 1 = false :=
+    faceBounded_off spline_face_bounded (by simp [twinV]) 4 twinV_bound (by norm_num) 1 (by norm_num)
+  have := h twinV (spline_accepts_zero_ends twinV (by simp [twinV]) (by simp [twinV, col]) (by simp [twinV, col]))
+    (1, 1) (by simp [twinV]) h1
+  rw [stripBoth_twinV _ h0 h1] at this
   simp at this
 
 /-- a spline groove does not depend on how densely or evenly its polyline is sampled: inserting any number of collinear
     vertices (such that the boundary stripping still leaves a refinement) changes neither the centring, nor the depth
     function (anywhere, also where it extrapolates), nor width, usable width and depth -/
 theorem spline_refinement_invariant (pts pts' : List (ℝ × ℝ))
-    (h : Refines OnChord (strip spline_strip pts) (strip spline_strip pts')) :
-    spline_centre.eval (strip spline_strip pts') = spline_centre.eval (strip spline_strip pts)
-      ∧ (∀ z, interp1 (splinePoints spline_strip spline_centre pts') z = interp1 (splinePoints spline_strip spline_centre pts) z)
-      ∧ spline_width.eval (splinePoints spline_strip spline_centre pts') = spline_width.eval (splinePoints spline_strip spline_centre pts)
-      ∧ spline_usable_default.eval (splinePoints spline_strip spline_centre pts')
-          = spline_usable_default.eval (splinePoints spline_strip spline_centre pts)
-      ∧ spline_depth.eval (splinePoints spline_strip spline_centre pts') = spline_depth.eval (splinePoints spline_strip spline_centre pts) := by
-  have hc : spline_centre.eval (strip spline_strip pts') = spline_centre.eval (strip spline_strip pts) := by
+    (h : Refines OnChord (stripped pts) (stripped pts')) :
+    spline_centre.eval (stripped pts') = spline_centre.eval (stripped pts)
+      ∧ (∀ z, interp1 (splinePoints spline_strip spline_face spline_centre pts') z
+            = interp1 (splinePoints spline_strip spline_face spline_centre pts) z)
+      ∧ spline_width.eval (splinePoints spline_strip spline_face spline_centre pts')
+          = spline_width.eval (splinePoints spline_strip spline_face spline_centre pts)
+      ∧ spline_usable_default.eval (splinePoints spline_strip spline_face spline_centre pts')
+          = spline_usable_default.eval (splinePoints spline_strip spline_face spline_centre pts)
+      ∧ spline_depth.eval (splinePoints spline_strip spline_face spline_centre pts')
+          = spline_depth.eval (splinePoints spline_strip spline_face spline_centre pts) := by
+  have hc : spline_centre.eval (stripped pts') = spline_centre.eval (stripped pts) := by
     rw [spline_centre_value, spline_centre_value, col0_eq, col0_eq,
       refines_minL Prod.fst chord_fst_min h, refines_maxL Prod.fst chord_fst_max h]
-  have hlast : (col 0 (splinePoints spline_strip spline_centre pts')).getLastD nan
-      = (col 0 (splinePoints spline_strip spline_centre pts)).getLastD nan := by
-    simp only [splinePoints, centred, getLastD_shift, hc, refines_getLast h]
+  have hlast : (col 0 (splinePoints spline_strip spline_face spline_centre pts')).getLastD nan
+      = (col 0 (splinePoints spline_strip spline_face spline_centre pts)).getLastD nan := by
+    simp only [splinePoints_eq, centred, getLastD_shift, hc, refines_getLast h]
   refine ⟨hc, fun z => ?_, ?_, ?_, ?_⟩
-  · simp only [splinePoints, centred, interp1_shift, hc, interp1_refines h]
+  · simp only [splinePoints_eq, centred, interp1_shift, hc, interp1_refines h]
   · simp only [spline_width, LTerm.eval, hlast]
   · simp only [spline_usable_default, LTerm.eval, hlast]
-  · simp only [spline_depth, LTerm.eval, splinePoints, centred, col1_shift]
+  · simp only [spline_depth, LTerm.eval, splinePoints_eq, centred, col1_shift]
     rw [col1_eq, col1_eq, refines_maxL Prod.snd chord_snd_max h]
+
+/-- the face tolerance of a refined polyline is the one of the polyline: inserting collinear vertices changes neither
+    extent, so (for either face test) the same ordinates are face ordinates before and after -/
+theorem spline_face_refinement_invariant (pts pts' : List (ℝ × ℝ)) (h : Refines OnChord pts pts') (y : ℝ) :
+    onFace pts' y = onFace pts y := by
+  have hx0 := refines_minL Prod.fst chord_fst_min h
+  have hx1 := refines_maxL Prod.fst chord_fst_max h
+  have hy1 := refines_maxL Prod.snd chord_snd_max h
+  have hy0 := refines_minL Prod.snd chord_snd_min h
+  simp only [← col0_eq, ← col1_eq] at hx0 hx1 hy0 hy1
+  first
+    | rfl
+    | (simp only [onFace, spline_face, FaceTest.onFace, LTerm.eval, hx0, hx1, hy0, hy1])
 
 /-! ## spline groove: the vertex array belongs to the groove -/
 
@@ -399,8 +463,26 @@ example (n : ℕ) : mirror (contour σ0 n segments) = contour σ0 n segments := 
 
 /-- the polyline `P0 = [(-8,0),(-4,4),(4,4),(8,0)]` and its one-sided, uneven refinement
     `P1 = [(-8,0),(-7,1),(-6,2),(-4,4),(4,4),(8,0)]` give the same spline groove -/
-example : ∀ z, interp1 (splinePoints spline_strip spline_centre P1) z = interp1 (splinePoints spline_strip spline_centre P0) z :=
-  (spline_refinement_invariant P0 P1 (by rw [show spline_strip = StripKind.faceRuns from rfl, strip_P0, strip_P1]; exact P0_refines_P1)).2.1
+theorem stripped_P0 : stripped P0 = P0 := by
+  have off : ∀ y : ℝ, 1 ≤ y → onFace P0 y = false :=
+    faceBounded_off spline_face_bounded (by simp [P0]) 8 P0_bound (by norm_num)
+  rw [stripped, show spline_strip = StripKind.faceRuns from rfl]
+  exact strip_P0 _ (spline_zero_on_face P0 (by simp [P0])) (off 4 (by norm_num))
+
+theorem stripped_P1 : stripped P1 = P1 := by
+  have off : ∀ y : ℝ, 1 ≤ y → onFace P1 y = false :=
+    faceBounded_off spline_face_bounded (by simp [P1]) 8 P1_bound (by norm_num)
+  rw [stripped, show spline_strip = StripKind.faceRuns from rfl]
+  exact strip_P1 _ (spline_zero_on_face P1 (by simp [P1])) (off 1 (by norm_num)) (off 2 (by norm_num)) (off 4 (by norm_num))
+
+example : ∀ z, interp1 (splinePoints spline_strip spline_face spline_centre P1) z
+    = interp1 (splinePoints spline_strip spline_face spline_centre P0) z :=
+  (spline_refinement_invariant P0 P1 (by rw [stripped_P0, stripped_P1]; exact P0_refines_P1)).2.1
+
+/-- the hypotheses of `spline_strip_keeps_interior` are satisfiable, and the vertex `(-4, 4)` is one it keeps -/
+example : (-4, 4) ∈ stripped P0 :=
+  (spline_strip_keeps_interior P0 (spline_accepts_zero_ends P0 (by simp [P0]) (by simp [P0, col]) (by simp [P0, col]))).2.1
+    (-4, 4) (by simp [P0]) (faceBounded_off spline_face_bounded (by simp [P0]) 8 P0_bound (by norm_num) 4 (by norm_num))
 
 example : P0 ≠ [] ∧ P1 ≠ P0 := by simp [P0, P1]
 
